@@ -1,7 +1,7 @@
 (* C08 - Buffers never exceed capacity; ordered buffers release jobs in discipline order. *)
 From Coq Require Import List ZArith Bool.
 From JSL Require Import Base.Res Base.ListX SM.Types SM.Util SM.Handler SM.Step SM.Middleware SM.Inv SM.Example SM.ExampleShift
-  SMP.Reflect SMP.StepInv SMP.Main SMP.WF SMP.Feasible SMP.Post SMP.StoreEff SMP.Clock SMP.LiftSide SMP.OutputDone SMP.LiftProv SMP.Release SM.Events Gen.Kernels Gen.KernelsEq.
+  SMP.Reflect SMP.StepInv SMP.Main SMP.WF SMP.Feasible SMP.Post SMP.StoreEff SMP.Clock SMP.LiftSide SMP.OutputDone SMP.LiftProv SMP.Release SM.Events Gen.Kernels Gen.KernelsEq SMP.EventsRun.
 Import ListNotations.
 
 (* no buffer (standalone, pre/internal/post, AGV) ever holds more jobs than its configured capacity:
@@ -120,3 +120,15 @@ Proof.
   - exfalso. vm_compute in E. inversion E; subst. vm_compute in E2. discriminate.
   - exfalso. vm_compute in E. inversion E; subst. vm_compute in E2. discriminate.
 Qed.
+
+(* the same lift for the store clauses: in every run every applied transition changes the stores only by removing one job from one
+   store and appending it at the back of another one (ev_stores), and a machine release appends the finished job at the back
+   of the post-buffer (ev_machine_release) *)
+Theorem C08_stores_change_by_remove_and_append_along_every_run :
+  forall (sigma : oracle) (i : inst) (fuel : nat) (x0 : state) (joker0 : Z) (ta : bool) (r : result) (m : mw)
+         (a : Z) (r' : result) (m' : mw) (lg : mlog),
+    inst_nonneg_b i = true ->
+    clock_b x0 = true -> wfs_b i x0 = true -> fresh2_b i x0 = true -> nodep_b x0 = true -> pre_ok_b x0 = true ->
+    reach sigma i fuel x0 joker0 ta r m -> mw_step sigma i fuel r m a = MOk r' m' lg -> chain_events i (r_x r) lg.
+Proof. intros sigma i fuel x0 joker0 ta r m a r' m' lg Hnn. apply run_events_ok; auto. Qed.
+Print Assumptions C08_stores_change_by_remove_and_append_along_every_run.
